@@ -15,22 +15,32 @@ type inProcessTransport struct {
 	done    chan bool
 	closing chan struct{} // closing is closed when the transport is closed, to release the pending Send calls
 	closed  bool
-	mu      sync.RWMutex
+	// closedByRemote indicates that the transport was closed by the remote party and not by a local
+	// call to Close. In this case, the envelopes sent before the closing can still be received.
+	closedByRemote bool
+	mu             sync.RWMutex
 }
 
 func (t *inProcessTransport) Close() error {
+	return t.close(false)
+}
+
+func (t *inProcessTransport) close(byRemote bool) error {
 	t.mu.Lock()
 	defer t.mu.Unlock()
 
 	if !t.closed {
 		t.closed = true
+		t.closedByRemote = byRemote
 		t.done <- true
 		close(t.closing)
+	} else if !byRemote {
+		t.closedByRemote = false
 	}
 
 	if !t.remote.closed {
 		// We are not closing the envChan here to avoid panics on Send method
-		return t.remote.Close()
+		return t.remote.close(true)
 	}
 
 	return nil
@@ -51,8 +61,11 @@ func (t *inProcessTransport) Send(ctx context.Context, e envelope) error {
 }
 
 func (t *inProcessTransport) Receive(ctx context.Context) (envelope, error) {
-	// As in a network connection, the envelopes that were sent before
-	// the closing of the transport are still delivered.
+	if t.isClosedLocally() {
+		return nil, errors.New("transport is closed")
+	}
+	// As in a network connection, the envelopes that were sent by the remote
+	// party before it closed the transport are still delivered.
 	select {
 	case e := <-t.envChan:
 		return e, nil
@@ -120,9 +133,15 @@ func (t *inProcessTransport) SetEncryption(context.Context, SessionEncryption) e
 func (t *inProcessTransport) Connected() bool {
 	t.mu.RLock()
 	defer t.mu.RUnlock()
-	// A closed transport that still holds envelopes sent by the remote party before
-	// the closing is considered connected until they are received.
-	return !t.closed || len(t.envChan) > 0
+	// A transport closed by the remote party that still holds envelopes sent
+	// before the closing is considered connected until they are received.
+	return !t.closed || (t.closedByRemote && len(t.envChan) > 0)
+}
+
+func (t *inProcessTransport) isClosedLocally() bool {
+	t.mu.RLock()
+	defer t.mu.RUnlock()
+	return t.closed && !t.closedByRemote
 }
 
 func (t *inProcessTransport) isClosed() bool {
